@@ -89,8 +89,10 @@ func genC20Plan(r *zsim.Rng) *sysPlan {
 		tmpl = "PV {f} " + c20Template
 	}
 	p.Args = append(p.Args, "--preview", tmpl)
+	narrowWide := false
 	if r.Chance(1, 2) {
-		p.Args = append(p.Args, "--preview-window", pick(r, "right", "left,30%", "up", "down,50%", "hidden", "right,border-none", "up,follow"))
+		p.Args = append(p.Args, "--preview-window", pick(r, "right", "left,30%", "up", "down,50%", "hidden", "right,border-none", "up,follow", "right,50%,<40(hidden)", "right,50%,<40(up,40%)"))
+		narrowWide = strings.Contains(p.Args[len(p.Args)-1], "<40")
 	}
 	for _, b := range c20Binds {
 		p.Args = append(p.Args, "--bind", b.key+":"+b.action)
@@ -127,6 +129,11 @@ func genC20Plan(r *zsim.Rng) *sysPlan {
 		default:
 			ps.Text = "partial-no-newline"
 			ps.Exit = 1
+			if r.Bool() {
+				// a command that redraws: two frames of the same height, the second after the clear code, the
+				// first long enough on the screen to be rendered
+				ps = procSpec{Text: "f1-a\nf1-b\nf1-c\n\x1b[2Jf2-a\nf2-b\nf2-c\n", Chunks: []int{3, 3}, DelaysMs: []int{r.Intn(60), []int{250, 400, 900}[r.Intn(3)]}}
+			}
 		}
 		if !ps.Endless && !ps.StartErr && r.Chance(1, 5) {
 			// the output ends (the command closes it) but the process stays for a long time
@@ -148,6 +155,10 @@ func genC20Plan(r *zsim.Rng) *sysPlan {
 			ev.Keys = "bspace"
 		default:
 			ev = sysEvent{Kind: "resize", Cols: r.Range(20, 150), Rows: r.Range(6, 50), DelayMs: r.Intn(200)}
+			if narrowWide {
+				// cross the threshold of the alternative layout back and forth
+				ev.Cols = []int{r.Range(20, 39), r.Range(41, 120)}[i%2]
+			}
 		}
 		p.Events = append(p.Events, ev)
 		if r.Chance(1, 4) {
@@ -327,6 +338,12 @@ func c20Settle(r *sysRun, busy bool) {
 		}
 		return
 	}
+	if st.Current < 0 && t.maxItems() <= 0 {
+		// no list row fits the window (a few rows, most of them taken by the preview): the cursor is not
+		// placed on any line until there is room again - nothing the statement speaks about
+		c.count("settle.no_list_rows", 1)
+		return
+	}
 	wantN := strconv.Itoa(int(st.Current))
 	wantLine := ""
 	loaded, complete := r.loadedInput()
@@ -374,7 +391,7 @@ func c20Settle(r *sysRun, busy bool) {
 	if !busy && !last.Alive && last.Consumed == last.Emitted.Len() && t.pwindow != nil && len(c.viol) == 0 {
 		pw := t.pwindow
 		top, left, width, height := pw.Top(), pw.Left(), pw.Width(), pw.Height()
-		simple := len(want) > 0 && len(want) <= height && t.previewer.offset == 0 && !strings.Contains(last.Emitted.String(), "\x1b")
+		simple := len(want) > 0 && len(want) <= height && t.previewer.offset == 0 && !strings.Contains(strings.ReplaceAll(last.Emitted.String(), "\x1b[2J", ""), "\x1b")
 		for _, l := range want {
 			tl := strings.TrimRight(l, "\n")
 			if len(tl) >= width-1 || strings.ContainsAny(tl, "\t\r") {
